@@ -4,3 +4,4 @@ import Props.C11
 import Props.C06
 import Props.C08
 import Props.C07
+import Props.C04
